@@ -33,6 +33,7 @@ type Report struct {
 	LockSites   []LockSite     `json:"lock_sites"`
 	AccessLines []string       `json:"access_lines"` // file:line of every guarded-field access (for attributing race reports)
 	Counts      map[string]int `json:"counts"`
+	Channels    []ChanDecl     `json:"channels"`
 }
 
 type EntryReport struct {
@@ -164,6 +165,11 @@ func translate(repo string, overlay map[string]string, mem map[string][]byte) (*
 		}
 	}
 	rep.LockSites = lockSites(t)
+	t.channels = t.collectChannels()
+	rep.Channels = t.channels
+	if mem == nil {
+		rep.Diagnostics = append(rep.Diagnostics, chanDiags(t.channels)...)
+	}
 	return t, rep, nil
 }
 
@@ -317,6 +323,9 @@ func genCoq(t *Trans) string {
 	b.WriteString("Example gen_well_locked : well_locked_prog prog = true.\nProof. vm_compute. reflexivity. Qed.\n\n")
 	b.WriteString("Example gen_no_block_while_locked : no_block_while_locked prog = true.\nProof. vm_compute. reflexivity. Qed.\n\n")
 	b.WriteString("Example gen_lock_order_ok : lock_order_ok prog = true.\nProof. vm_compute. reflexivity. Qed.\n\n")
-	b.WriteString("Example gen_single_section : single_section_prog store_methods prog = true.\nProof. vm_compute. reflexivity. Qed.\n")
+	b.WriteString("Example gen_single_section : single_section_prog store_methods prog = true.\nProof. vm_compute. reflexivity. Qed.\n\n")
+	b.WriteString("(* every make(chan ...) of the translated packages with the capacity it is created with *)\n")
+	b.WriteString("Definition channels : list (string * chan_cap) :=\n  " + chanCoq(t.channels) + ".\n\n")
+	b.WriteString("Example gen_channel_capacities_ok : channel_capacities_ok channels = true.\nProof. vm_compute. reflexivity. Qed.\n")
 	return b.String()
 }
